@@ -31,7 +31,15 @@ def place(path, x="x"):
             "inner": x + ".In", "parenfld": "(%s).X" % x, "idx": x + "[0]"}[path]
 
 
-def mutation(form, e, t):
+def mutation(form, e, t, mutable=False, whole_ref=False):
+    if form == "fnslot":
+        # a function that writes through its &' parameter bound to a function-typed slot whose parameter is &T, then
+        # called with a shared borrow of the place: the only way in is the binding, which must not type-check. The
+        # control binds it to a slot of its own type and passes a mutable borrow of the (then mutable) place.
+        ty = {"int": "i32", "P": "P", "Q": "Q", "str": "str"}[t]
+        fnm = {"int": "mutI", "P": "mutP", "Q": "mutQ", "str": "mutS"}[t]
+        rf = "&'" if mutable else "&"
+        return "let slot: fn(r: %s%s) = %s; slot(%s%s);" % (rf, ty, fnm, "" if whole_ref else rf, e)
     if form == "assign":
         rhs = {"int": "7", "P": PLIT, "Q": "{ .X = 9 } as Q", "arr": "[4, 5, 6]", "str": '"z"'}[t]
         return "%s = %s;" % (e, rhs)
@@ -72,7 +80,7 @@ def render(c, mutable):
     """mutable=False: the case; True: its twin with a mutable root (the control)."""
     k, ctx = c["kind"], c["ctx"]
     e = place(c["path"])
-    mut = [mutation(c["form"], e, c["placeType"])]
+    mut = [mutation(c["form"], e, c["placeType"], mutable, k.startswith("ref_") and c["path"] in ("id", "paren"))]
     glob, pre, params, args, recv = [], [], "gate: i32", "1", None
     dk = "let" if mutable else "const"
     rf = "&'" if mutable else "&"
